@@ -255,3 +255,93 @@ Theorem C03_source_tables_are_the_scanners :
   yanny_protect_condition = scanner_protect_condition.
 Proof. exact tables_are_the_scanners. Qed.
 Print Assumptions C03_source_tables_are_the_scanners.
+
+(* ------------------------------------------------------------------ round 5 *)
+From PV Require Import C03.SkelLang Generated.YannyOps C03.SkelSem C03.Skel C03.Total.
+
+(* ---- the control skeleton of yanny.write() / yanny.append(), regenerated from yanny.py on every run by translate/c03.py
+   (Generated/YannyOps.v: every statement of the two methods in source order -- file-name decision, existence check,
+   refusal, rendering loops, open-and-write, where self._contents / self.filename are assigned, the re-parse; the skipped
+   keys `key.upper() in self.tables() or key == 'symbols'`, lower- before upper-case table key, the `len(contents) > 0`
+   decision, the marker line, the W_OK check, the warning), is the one the model was written for ... ---- *)
+Theorem C03_source_write_skeleton : write_skel = ref_write_skel.
+Proof. exact write_skel_is_ref. Qed.
+Print Assumptions C03_source_write_skeleton.
+
+(* (append_fix: whether the source terminates an unterminated last line before the marker; read off the skeleton) *)
+Theorem C03_source_append_skeleton : append_skel = ref_append_skel append_fix.
+Proof. exact append_skel_is_ref. Qed.
+Print Assumptions C03_source_append_skeleton.
+
+(* ... and EXECUTING the source's skeleton (SkelSem: statement by statement, a raise leaves what was modified before it
+   modified) IS the model's do_write / do_append, for every file system, object and argument *)
+Theorem C03_source_write_is_model : forall fs o nf cmts,
+  nf <> Some [] -> run_write write_skel fs o nf cmts = do_write fs o nf cmts.
+Proof. exact source_write_is_model. Qed.
+Print Assumptions C03_source_write_is_model.
+
+Theorem C03_source_append_is_model : forall fs o d clock,
+  run_append append_skel fs o d clock = do_append fs o d clock.
+Proof. exact source_append_is_model. Qed.
+Print Assumptions C03_source_append_is_model.
+
+(* read off the source's skeleton: write() onto an existing name returns file system and object (self.filename included)
+   as they were; an append() that does not succeed does too *)
+Theorem C03_source_write_refusal_changes_nothing : forall fs o p cmts old,
+  p <> [] -> fs_get fs p = Some old -> run_write write_skel fs o (Some p) cmts = (fs, o, Refused).
+Proof. exact source_write_refusal_changes_nothing. Qed.
+Print Assumptions C03_source_write_refusal_changes_nothing.
+
+Theorem C03_source_append_not_ok_changes_nothing : forall fs o d clock fs' o' out,
+  run_append append_skel fs o d clock = (fs', o', out) -> out = Refused \/ out = Warned \/ out = ValueErr \/ out = Unmodelled ->
+  (fs', o') = (fs, o).
+Proof. exact source_append_not_ok_changes_nothing. Qed.
+Print Assumptions C03_source_append_not_ok_changes_nothing.
+
+(* ---- the invariant for EVERY state and EVERY operation (no domain of documents, no admissibility of the arguments):
+   unless the re-parse raises, object and file do not diverge ---- *)
+Theorem C03_invariant_every_state : forall fs o x fs' o' out,
+  Inv fs o -> op_sane fs x -> step (fs, o) x = (fs', o', out) -> out <> Crashed -> Inv fs' o'.
+Proof. exact step_keeps_Inv. Qed.
+Print Assumptions C03_invariant_every_state.
+
+(* ... after every prefix of every operation list along which no re-parse raises (decidable: trace_okb) *)
+Theorem C03_invariant_every_history : forall ops fs o, Inv fs o -> trace_ok (fs, o) ops ->
+  forall k, let '(fs', o') := run (fs, o) (firstn k ops) in Inv fs' o'.
+Proof. exact run_keeps_Inv. Qed.
+Print Assumptions C03_invariant_every_history.
+
+(* histories that start from ANY text the reader accepts (hand-written: char x[] columns whose width grows with the
+   appended rows, no final newline, trailing comments, CRLF ...) *)
+Theorem C03_text_history_Inv : forall text p0 raw init steps,
+  text_domain (CText text p0 raw init steps) = true ->
+  exists fs o, init_text text p0 raw = Some (fs, o) /\
+  forall k, let '(fs', o') := run (fs, o) (firstn k (map fst steps)) in Inv fs' o'.
+Proof. exact text_history_Inv. Qed.
+Print Assumptions C03_text_history_Inv.
+
+(* the strong theorem at every prefix: invariant AND content (original + appended so far) after each step *)
+Theorem C03_every_prefix_content : forall d0 p0 raw ops s,
+  doc_ok d0 = true -> p0 <> [] -> init_state d0 p0 raw = Some s -> hist_ok s d0 ops ->
+  forall k, let '(fs', o') := run s (firstn k ops) in
+  Inv fs' o' /\ sem (spec_doc d0 (firstn k ops)) = Some (o_state o').
+Proof. exact every_prefix_content. Qed.
+Print Assumptions C03_every_prefix_content.
+
+(* non-vacuity: a hand-written file with `char s[]`, a trailing comment on its last line and no final newline; a longer
+   value is appended (numpy width 1 -> 6), the file is copied, an overwrite is refused, a pair is appended, re-read *)
+Theorem C03_example_text_seed_in_domain : text_domain tx_case = true.
+Proof. exact tx_in_domain. Qed.
+Print Assumptions C03_example_text_seed_in_domain.
+
+Theorem C03_example_unsized_width_growth :
+  match init_text tx_text (bs "f.par"%string) false with
+  | Some s => col_widths (o_state (snd s)) = [NI4; NS 1] /\
+              let '(fs, o) := run s tx_ops in
+              col_widths (o_state o) = [NI4; NS 6] /\ o_file o = bs "g.par"%string /\
+              pd_pairs (o_state o) = [(bs "k"%string, bs "v"%string); (bs "j"%string, bs "1"%string)] /\
+              pd_pairs (o_state (snd (run s (firstn 1 tx_ops)))) = [(bs "k"%string, if append_fix then bs "v"%string else bs "v # note"%string)]
+  | None => False
+  end.
+Proof. exact tx_widths. Qed.
+Print Assumptions C03_example_unsized_width_growth.
